@@ -6,7 +6,9 @@ import (
 	"encoding/base64"
 	"encoding/json"
 	"fmt"
+	"os"
 	"strings"
+	"sync"
 
 	mail "github.com/wneessen/go-mail"
 	"github.com/wneessen/go-mail/smtp"
@@ -32,7 +34,17 @@ type c07Cfg struct {
 	// good certificate) that advertised AUTH list Prev-1 inside TLS, and closed it; the configuration above
 	// describes the server met by the SECOND dial, which is the one judged
 	Prev int `json:"prev,omitempty"`
+	// FB > 0 (implicit TLS only): the Client is configured with WithSSLPort(true) (fallback enabled), the dial to
+	// the primary port is refused, and the fallback port (25) is served by 1 a plain-text SMTP server, 2 an
+	// implicit-TLS server. Whatever answers there, an implicit-TLS client never speaks in clear.
+	// FB == 3 (mandatory / opportunistic): WithTLSPortPolicy, the dial to the primary port is refused and the
+	// connection to the fallback port is the one judged.
+	FB int `json:"fb,omitempty"`
 }
+
+// c07FBMu serialises the fallback-port cases of one process (they listen on the fixed port 25 of a
+// loopback address derived from the process id).
+var c07FBMu sync.Mutex
 
 var (
 	c07Policies  = []string{"mandatory", "opportunistic", "none", "implicit"}
@@ -98,7 +110,27 @@ func c07Exec(r *vf.Run, cfg c07Cfg) []finding {
 	}
 	opts := []mail.Option{mail.WithHELO("client.example.test"), mail.WithTLSConfig(hx.ClientTLS(host))}
 	var bridge *hx.Bridge
-	if cfg.Policy == 3 {
+	if cfg.Policy == 3 && cfg.FB > 0 {
+		conn.ImplicitTLS = cfg.FB == 2
+		c07FBMu.Lock()
+		defer c07FBMu.Unlock()
+		var err error
+		pid := os.Getpid()
+		for try := 0; try < 50; try++ {
+			host = fmt.Sprintf("127.%d.%d.%d", 1+pid%250, (pid/250)%250, 2+try)
+			if bridge, err = hx.ServeTCPAt(conn, host+":25"); err == nil {
+				break
+			}
+		}
+		if err != nil {
+			r.HarnessError("C07 listen on port 25 of a loopback address: %v", err)
+			return nil
+		}
+		defer bridge.Stop()
+		// port 1 (tcpmux) of the loopback address is closed: the primary dial is refused, the fallback port is 25
+		opts = append(opts, mail.WithSSLPort(true), mail.WithPort(1))
+		opts[1] = mail.WithTLSConfig(hx.ClientTLS("127.0.0.1"))
+	} else if cfg.Policy == 3 {
 		conn.ImplicitTLS = true
 		var err error
 		bridge, err = hx.ServeTCP(conn)
@@ -112,18 +144,25 @@ func c07Exec(r *vf.Run, cfg c07Cfg) []finding {
 		opts[1] = mail.WithTLSConfig(hx.ClientTLS("127.0.0.1"))
 	} else {
 		rig := &hx.Rig{Mk: func(n int) *refsmtp.Conn {
-			if n > 0 {
+			if cfg.FB == 3 {
+				n-- // the dial to the primary port is refused; the judged connection is the one to the fallback port
+			}
+			if n != 0 {
 				return nil
 			}
 			return conn
 		}}
 		opts = append(opts, mail.WithDialContextFunc(rig.Dial))
-		switch cfg.Policy {
-		case 0:
+		switch {
+		case cfg.Policy == 0 && cfg.FB == 3:
+			opts = append(opts, mail.WithTLSPortPolicy(mail.TLSMandatory))
+		case cfg.Policy == 1 && cfg.FB == 3:
+			opts = append(opts, mail.WithTLSPortPolicy(mail.TLSOpportunistic))
+		case cfg.Policy == 0:
 			opts = append(opts, mail.WithTLSPolicy(mail.TLSMandatory))
-		case 1:
+		case cfg.Policy == 1:
 			opts = append(opts, mail.WithTLSPolicy(mail.TLSOpportunistic))
-		case 2:
+		case cfg.Policy == 2:
 			opts = append(opts, mail.WithTLSPolicy(mail.NoTLS))
 		}
 	}
@@ -215,7 +254,7 @@ func c07Exec(r *vf.Run, cfg c07Cfg) []finding {
 			add(fmt.Sprintf("mandatory-tls/bad-certificate-accepted/hs=%d", cfg.HS), "DialWithContext succeeded although the server's certificate/handshake is not valid for the host")
 		}
 	case 3:
-		if len(clear) > 0 {
+		if len(clear) > 0 && clear[0] != 0x16 { // (a ClientHello sent to a plain-text server is not clear text)
 			add("implicit-tls/cleartext-bytes", "implicit TLS: the client sent %q in clear", clipS(string(clear), 60))
 		}
 		if len(conn.ClientBytes) > 0 && conn.ClientBytes[0] != 0x16 {
@@ -266,6 +305,9 @@ func c07Exec(r *vf.Run, cfg c07Cfg) []finding {
 		if il.Key == "unknown-command" && strings.Contains(il.What, `"*"`) {
 			continue
 		}
+		if cfg.FB == 1 && len(conn.ClientBytes) > 0 && conn.ClientBytes[0] == 0x16 {
+			break // the plain-text server on the fallback port was sent a TLS ClientHello: no SMTP dialogue to monitor
+		}
 		if custom && il.Key == "not-advertised" {
 			continue
 		}
@@ -285,8 +327,8 @@ func init() {
 	vf.Register(&vf.Check{
 		ID: "C07", Title: "TLS policy and credential confidentiality hold against any server",
 		Run: func(r *vf.Run) {
-			r.SetRule("the full product TLS policy {mandatory, opportunistic, none, implicit (go-mail's own TLS dialer over a loopback bridge)} × 13 auth types × host name {mail.example.test, five remote names that resemble loopback names (localhost.example.test, 127.0.0.1.example.test, …), localhost, 127.0.0.1} × server behaviour {STARTTLS advertised or not; reply 220 / 454 / 501 / garbage / 220 followed by injected plaintext; handshake ok / wrong-name certificate / untrusted certificate / garbage; 7 advertised AUTH lists}, each executed with real crypto/tls handshakes where reached; oracle on the byte tap of everything the client wrote before/after the switch to TLS; distinct by configuration")
-			r.Assume("a completed server-side handshake implies the client accepted the certificate (TLS 1.2/1.3 semantics)", "implicit TLS is only exercised against 127.0.0.1 (go-mail's dialer needs a real socket)")
+			r.SetRule("the full product TLS policy {mandatory, opportunistic, none, implicit (go-mail's own TLS dialer over a loopback bridge)} × 13 auth types × (mandatory/opportunistic) WithTLSPortPolicy with the primary port refusing × (implicit TLS) fallback enabled with the primary port refusing and the fallback port 25 served by a plain-text or an implicit-TLS server × host name {mail.example.test, five remote names that resemble loopback names (localhost.example.test, 127.0.0.1.example.test, …), localhost, 127.0.0.1} × server behaviour {STARTTLS advertised or not; reply 220 / 454 / 501 / garbage / 220 followed by injected plaintext; handshake ok / wrong-name certificate / untrusted certificate / garbage; 7 advertised AUTH lists}, each executed with real crypto/tls handshakes where reached; oracle on the byte tap of everything the client wrote before/after the switch to TLS; distinct by configuration")
+			r.Assume("a completed server-side handshake implies the client accepted the certificate (TLS 1.2/1.3 semantics)", "implicit TLS is only exercised against loopback addresses (go-mail's dialer needs a real socket; the fallback cases listen on port 25 of 127.x.y.z)")
 			var cfgs []c07Cfg
 			for pol := 0; pol < 4; pol++ {
 				for a := range c07Auths {
@@ -310,6 +352,12 @@ func init() {
 										continue // quick: half of the (real-socket) implicit-TLS configurations
 									}
 									cfgs = append(cfgs, c07Cfg{Policy: pol, Auth: a, Local: local, HostIdx: hostIdx, HS: hs, AuthList: al})
+									if hostIdx == 1 && (hs == 0 || hs == 1) {
+										cfgs = append(cfgs, c07Cfg{Policy: pol, Auth: a, Local: local, HostIdx: hostIdx, HS: hs, AuthList: al, FB: 2})
+										if hs == 0 {
+											cfgs = append(cfgs, c07Cfg{Policy: pol, Auth: a, Local: local, HostIdx: hostIdx, HS: hs, AuthList: al, FB: 1})
+										}
+									}
 									continue
 								}
 								for _, adv := range []bool{true, false} {
@@ -324,6 +372,10 @@ func init() {
 											continue
 										}
 										cfgs = append(cfgs, c07Cfg{Policy: pol, Auth: a, Local: local, HostIdx: hostIdx, Adv: adv, STReply: st, HS: hs, AuthList: al})
+										if hostIdx == 0 && pol <= 1 && (st == 0 || st == 1) {
+											// WithTLSPortPolicy: the first dial is refused, the fallback connection is judged
+											cfgs = append(cfgs, c07Cfg{Policy: pol, Auth: a, Local: local, HostIdx: hostIdx, Adv: adv, STReply: st, HS: hs, AuthList: al, FB: 3})
+										}
 										if hostIdx == 0 && hs == 0 && st == 0 && pol <= 1 {
 											for _, prev := range []int{2, 4, 7} { // earlier connection advertised PLAIN / PLAIN LOGIN / everything inside TLS
 												cfgs = append(cfgs, c07Cfg{Policy: pol, Auth: a, Local: local, HostIdx: hostIdx, Adv: adv, STReply: st, HS: hs, AuthList: al, Prev: prev})
